@@ -146,7 +146,9 @@ def check_file(path, kind, want, decimals):
             w = w.reshape(got.shape) if w.size == got.size else w
             if got.shape != w.shape:
                 return f"{os.path.basename(path)}: text file has shape {got.shape}, returned {w.shape}"
-            bad = np.abs(got - w) > tol + 1e-15 * np.abs(w)
+            with np.errstate(invalid="ignore"):
+                bad = np.abs(got - w) > tol + 1e-15 * np.abs(w)
+            bad |= np.isnan(got) != np.isnan(w)          # an undefined value must be written as undefined, not as a number
             if bad.any():
                 i = tuple(int(x) for x in np.argwhere(bad)[0])
                 return f"{os.path.basename(path)}: entry {i} is {got[i]!r} in the file but {w[i]!r} was returned"
